@@ -49,12 +49,27 @@ Conv2D(H, W, kh, kw) ==
          /\ P(ConvCase("conv2d", <<1, 2, H, W>>, <<2, 2, kh, kw>>, <<AIs("kernel_shape", <<kh, kw>>), AIs("pads", <<1, 0, 1, 0>>)>>, TRUE, "f64", <<"2d", "kernel_shape_given">>))
          /\ P(ConvCase("conv2d", <<1, 2, H, W>>, <<2, 2, kh, kw>>, <<AI("group", 2)>>, FALSE, "f32", <<"2d", "group2">>)))
 
+\* special values: infinities and NaN in the image, kernels with all-zero output channels, zero weights under non-finite elements
+SpecialCases ==
+   LET X1 == [dt \in {"f32", "f64"} |-> T(dt, <<1, 2, 4>>, <<Fin(1), PInf, Fin(2), NaN, NInf, Fin(3), Fin(0), Fin(-1)>>)]
+       X1f == [dt \in {"f32", "f64"} |-> T(dt, <<1, 2, 4>>, <<Fin(1), PInf, Fin(2), Fin(5), Fin(4), Fin(3), Fin(0), Fin(-1)>>)]
+       W1 == [dt \in {"f32", "f64"} |-> T(dt, <<3, 2, 2>>, <<0, 0, 0, 0, 1, -1, 0, 2, 0, 0, 0, 1>>)]
+       W0 == [dt \in {"f32", "f64"} |-> T(dt, <<2, 2, 2>>, <<0, 0, 0, 0, 0, 0, 0, 0>>)]
+       X2 == T("f32", <<1, 1, 2, 3>>, <<Fin(1), PInf, Fin(2), NaN, Fin(3), NInf>>)
+       W2 == T("f32", <<2, 1, 1, 2>>, <<0, 0, 1, 0>>)
+       Emit1(X, W, B, attrs, feat) == P([CaseRec("special", attrs, IF IsNil(B) THEN <<X, W>> ELSE <<X, W, B>>, MustValue(<<ConvValueF(X, W, B, attrs)>>), <<"value", X.dt, "special_values"\o feat>>)
+                                           EXCEPT !.known = KnownConvF(X, W, B, attrs)])
+   IN /\ \A dt \in {"f32", "f64"} : \A attrs \in {<<>>, <<AIs("pads", <<1, 1>>)>>, <<AIs("dilations", <<2>>)>>, <<AIs("strides", <<2>>)>>} :
+            /\ Emit1(X1[dt], W1[dt], Nil, attrs, "_zero_channel") /\ Emit1(X1[dt], W1[dt], Bia(dt, 3), attrs, "_zero_channel")
+            /\ Emit1(X1[dt], W0[dt], Bia(dt, 2), attrs, "_zero_kernel") /\ Emit1(X1f[dt], W1[dt], Nil, attrs, "_one_infinity")
+      /\ \A attrs \in {<<>>, <<AIs("pads", <<0, 1, 0, 1>>)>>} : Emit1(X2, W2, Nil, attrs, "_2d") /\ Emit1(X2, W2, Bia("f32", 2), attrs, "_2d")
+
 Init ==
    \/ ("conv1d" \in Fams /\ st \in [fam : {"conv1d"}, L : 1..MaxL, k : 1..MaxK1, s : 1..MaxSD, d : 1..MaxSD, done : {FALSE}])
    \/ ("conv2d" \in Fams /\ st \in [fam : {"conv2d"}, H : 2..MaxHW, W : 2..MaxHW, kh : 1..MaxK2, kw : 1..MaxK2, done : {FALSE}])
 Emit ==
    /\ ~st.done
-   /\ CASE st.fam = "conv1d" -> Conv1D(st.L, st.k, st.s, st.d)
+   /\ CASE st.fam = "conv1d" -> Conv1D(st.L, st.k, st.s, st.d) /\ (st.L = 1 /\ st.k = 1 /\ st.s = 1 /\ st.d = 1 => SpecialCases)
         [] st.fam = "conv2d" -> Conv2D(st.H, st.W, st.kh, st.kw)
    /\ st' = [st EXCEPT !.done = TRUE]
 Next == Emit
